@@ -147,6 +147,7 @@ class GenerateWasmVisitor(Visitor.DefaultVisitor):
         index = vai.Variable
         if vai.Store:
             # Store to a parameter
+            self.__CheckSameValueType(vai.Type, vai.Store.Type, "assignment")
             self.__PushValueOntoStack(vai.Store, ctx)
             ctx.Code.AddInstruction(
                 WebAssembly.Instruction(
@@ -271,7 +272,26 @@ class GenerateWasmVisitor(Visitor.DefaultVisitor):
             )
         )
 
+    def __CheckSameValueType(
+        self, expected: LinearIR.Type, actual: LinearIR.Type, what: str
+    ):
+        # The front end does not convert a value that is returned or stored to
+        # a parameter. The VM does not care, but a wasm value has a fixed type.
+        expectedType = None if expected.IsVoid() else _ConvertValueType(expected)
+        actualType = None if actual.IsVoid() else _ConvertValueType(actual)
+        if expectedType != actualType:
+            raise RuntimeError(
+                f"Unsupported implicit conversion for WebAssembly in {what}: "
+                f"{actual} to {expected}"
+            )
+
     def v_ReturnInstruction(self, ri: LinearIR.ReturnInstruction, ctx: Context):
+        self.__CheckSameValueType(
+            self.__returnType,
+            ri.Value.Type if ri.Value else LinearIR.VoidType(),
+            "return",
+        )
+
         if ri.Value:
             self.__PushValueOntoStack(ri.Value, ctx)
 
@@ -281,6 +301,7 @@ class GenerateWasmVisitor(Visitor.DefaultVisitor):
         )
 
     def v_Function(self, function: LinearIR.Function, ctx: Context):
+        self.__returnType = function.Type.ReturnType
         ctx.OnEnterFunction(function.Name)
         assert ctx.Code
 
